@@ -64,6 +64,11 @@ type Server struct {
 	referrerCache *cache.Cache[referrerKey, referrerResponses]
 	rateMu        sync.Mutex // serializes the rate limit accounting, separate from mu so Shutdown can wait for handlers
 	rateLimit     *cache.Cache[string, *rateLimitEntry]
+
+	// manifest put and delete update the index and the referrers response in several store calls: they hold
+	// indexMu for writing, the handlers that read the index hold it for reading, so every request sees and
+	// leaves the index and the referrers of a repository in a state that requests run one at a time produce
+	indexMu sync.RWMutex
 }
 
 type rateLimitEntry struct {
